@@ -9,7 +9,7 @@ import (
 	"io"
 	"os"
 	"path/filepath"
-	"reflect"
+	"regexp"
 	"runtime/debug"
 	"sort"
 	"strings"
@@ -37,6 +37,10 @@ var c17Opts = []string{"", "?preload=true&lrucache=true&lrucachesize=100000"}
 
 const c17Query = `a = "1" ; c`
 const c17PrepQuery = `a = $1 ; c`
+
+// the concurrent scenarios use expressions with several nodes, so that a cached evaluation does several cache operations
+const c17ConcQuery = `a = "1" | ( a = "no such value" & c = "foo" ) ; c`
+const c17ConcPrepQuery = `a = $1 | ( a = "no such value" & c = "foo" ) ; c`
 
 // expected rows of the query on file f, rendered
 func c17Expected(f int) string {
@@ -288,7 +292,8 @@ func c17Play(ctx *rt.Ctx, c c17Case, all bool) (viol string, sigOverride string,
 	return "", "", strings.Join(hs, ",") + "|" + dump
 }
 
-// c17DriverDump renders the driver's connection-cache entries that belong to files ("?" if it cannot be bound).
+// c17DriverDump renders the complete private state of the registered driver (every field, also ones added later), with
+// this replay's file names canonicalised and other replays' file names blanked ("?" if the driver cannot be reached).
 func c17DriverDump(files [2]string) (out string) {
 	defer func() {
 		if recover() != nil {
@@ -298,40 +303,14 @@ func c17DriverDump(files [2]string) (out string) {
 	db, _ := sql.Open("updog", "file:/nonexistent")
 	drv := db.Driver()
 	db.Close()
-	v := reflect.ValueOf(drv).Elem()
-	cf := v.FieldByName("fileConnCache")
-	if !cf.IsValid() || cf.Kind() != reflect.Map {
-		return "?"
+	d := rt.DeepDump(drv, 3)
+	for i, f := range files {
+		d = strings.ReplaceAll(d, f, fmt.Sprintf("F%d", i))
 	}
-	var ents []string
-	it := cf.MapRange()
-	for it.Next() {
-		k := it.Key()
-		file := k.FieldByName("file").String()
-		fi := -1
-		for i, f := range files {
-			if f == file {
-				fi = i
-			}
-		}
-		if fi < 0 {
-			continue
-		}
-		conn := it.Value().Elem()
-		refs := conn.FieldByName("refs")
-		rv := "?"
-		if refs.IsValid() {
-			if f := refs.FieldByName("v"); f.IsValid() { // vatomic.Int32{v atomic.Int32{_ noCopy; v int32}}
-				if g := f.FieldByName("v"); g.IsValid() {
-					rv = fmt.Sprint(g.Int())
-				}
-			}
-		}
-		ents = append(ents, fmt.Sprintf("f%d%s:refs=%s:idxnil=%v", fi, k.FieldByName("opts").String(), rv, conn.FieldByName("idx").IsNil()))
-	}
-	sort.Strings(ents)
-	return strings.Join(ents, ",")
+	return c17OldPath.ReplaceAllString(d, "OLD")
 }
+
+var c17OldPath = regexp.MustCompile(`[^"\s]*c17c?-[0-9]+(-f[0-9])?\.updog`)
 
 func c17Enabled(c c17Case, o c17Op) bool {
 	live := map[int]bool{}
@@ -447,6 +426,7 @@ type c17Params struct {
 	Threads int  `json:"threads"`
 	Mixed   bool `json:"mixed"` // one thread re-opens after closing (open/close/open)
 	Args    bool `json:"args"`  // every thread binds a different argument (direct and prepared path)
+	LRU     bool `json:"lru"`   // the DSN asks for an LRU cache, which all connections of the file then share
 }
 
 func c17Driver() driver.Driver {
@@ -477,6 +457,9 @@ func c17ConcScenario(ctx *rt.Ctx, p c17Params, outcome *string) vsched.Scenario 
 		file := filepath.Join(ctx.Scratch, fmt.Sprintf("c17c-%d.updog", c17Seq))
 		os.WriteFile(file, c17Masters[0], 0o644)
 		dsn := "file:" + file
+		if p.LRU {
+			dsn += "?lrucache=true&lrucachesize=1000000"
+		}
 		got := make([]string, p.Threads)
 		use := func(t int) string {
 			conn, err := drv.Open(dsn)
@@ -487,15 +470,15 @@ func c17ConcScenario(ctx *rt.Ctx, p c17Params, outcome *string) vsched.Scenario 
 			if p.Args {
 				arg := []string{"1", "5"}[t%2]
 				if t < 2 {
-					rows, err = conn.(driver.QueryerContext).QueryContext(context.Background(), c17PrepQuery, []driver.NamedValue{{Ordinal: 1, Value: arg}})
+					rows, err = conn.(driver.QueryerContext).QueryContext(context.Background(), c17ConcPrepQuery, []driver.NamedValue{{Ordinal: 1, Value: arg}})
 				} else {
 					var st driver.Stmt
-					if st, err = conn.Prepare(c17PrepQuery); err == nil {
+					if st, err = conn.Prepare(c17ConcPrepQuery); err == nil {
 						rows, err = st.Query([]driver.Value{arg})
 					}
 				}
 			} else {
-				rows, err = conn.(driver.QueryerContext).QueryContext(context.Background(), c17Query, nil)
+				rows, err = conn.(driver.QueryerContext).QueryContext(context.Background(), c17ConcQuery, nil)
 			}
 			if err != nil {
 				conn.Close()
@@ -578,9 +561,9 @@ func c17Run(ctx *rt.Ctx) []*rt.Violation {
 		p     c17Params
 		bound int
 	}
-	concs := []cc{{c17Params{Threads: 2}, 2}, {c17Params{Threads: 2, Mixed: true}, 2}, {c17Params{Threads: 3}, 1}, {c17Params{Threads: 2, Args: true}, 2}, {c17Params{Threads: 3, Args: true}, 1}}
+	concs := []cc{{c17Params{Threads: 2}, 2}, {c17Params{Threads: 2, Mixed: true}, 2}, {c17Params{Threads: 3}, 1}, {c17Params{Threads: 2, Args: true}, 2}, {c17Params{Threads: 3, Args: true}, 1}, {c17Params{Threads: 2, LRU: true}, 1}, {c17Params{Threads: 2, Args: true, LRU: true}, 1}}
 	if ctx.Thorough() {
-		concs = []cc{{c17Params{Threads: 2}, 4}, {c17Params{Threads: 2, Mixed: true}, 3}, {c17Params{Threads: 3}, 2}, {c17Params{Threads: 3, Mixed: true}, 2}, {c17Params{Threads: 2, Args: true}, 3}, {c17Params{Threads: 3, Args: true}, 2}}
+		concs = []cc{{c17Params{Threads: 2}, 4}, {c17Params{Threads: 2, Mixed: true}, 3}, {c17Params{Threads: 3}, 2}, {c17Params{Threads: 3, Mixed: true}, 2}, {c17Params{Threads: 2, Args: true}, 3}, {c17Params{Threads: 3, Args: true}, 2}, {c17Params{Threads: 2, LRU: true}, 3}, {c17Params{Threads: 3, Args: true, LRU: true}, 1}}
 	}
 	var conc []rt.Job
 	for _, c := range concs {
